@@ -28,7 +28,8 @@ const maxDepth = 3
 const absentID = uint64(1) << 62
 
 type sop struct {
-	k       byte // s u f p g c S(gs) U(gu) H(gsh)
+	k       byte // s u f p g c S(gs) U(gu) H(gsh) R(sr) V(ur)
+	r       int
 	c, e, t int
 	g       bool
 	a       []int
@@ -54,12 +55,22 @@ type kase struct {
 	realID  map[int]uint64
 	tagCtr  map[int]int
 	hooked  map[int]bool
+	recvs   map[int]*recvObj
 	fnTag   map[int]int // light listeners with a code pointer of their own (8..15): code pointer -> tag
 	depth   int
 	aborted bool
 	mu      sync.Mutex
 	toks    []string
 	jobs    chan func()
+}
+
+type recvObj struct{ n int }
+
+func (k *kase) receiver(r int) *recvObj {
+	if k.recvs[r] == nil {
+		k.recvs[r] = &recvObj{r}
+	}
+	return k.recvs[r]
 }
 
 // hookedEC is a local centre whose GetId() runs a one-shot hook.
@@ -136,6 +147,16 @@ func parseOp(s string) (sop, bool) {
 		c, ok1 := num(1)
 		e, ok2 := num(2)
 		return sop{k: 'p', c: c, e: e, a: parseInts(p[3], "_")}, ok1 && ok2
+	case len(p) == 5 && (p[0] == "sr" || p[0] == "ur"):
+		c, ok1 := num(1)
+		e, ok2 := num(2)
+		t, ok3 := num(3)
+		r, ok4 := num(4)
+		k := byte('R')
+		if p[0] == "ur" {
+			k = 'V'
+		}
+		return sop{k: k, c: c, e: e, t: t, r: r}, ok1 && ok2 && ok3 && ok4
 	case len(p) == 4 && p[0] == "gsh":
 		e, ok1 := num(1)
 		c, ok2 := num(2)
@@ -375,6 +396,42 @@ func (k *kase) runOp(o sop) {
 			}
 		}
 		k.tok("g:" + joinInts(grew, "."))
+	case 'R':
+		// light centre SubscribeWithReceiver: ONE func value per code pointer, receivers are pointers kept per case
+		c, tm := k.centre(o.c), k.tmpls[o.t]
+		if c == nil || tm == nil || c.kind != 'T' || o.r == 0 {
+			k.tok("bad")
+			return
+		}
+		if k.used[o.t] {
+			k.tok("dup")
+			return
+		}
+		k.used[o.t] = true
+		var args []interface{}
+		if tm.fn%16 < 8 {
+			args = make([]interface{}, 0, 1+len(tm.bound))
+			args = append(append(args, tagArg{o.t}), toArgs(tm.bound)...)
+		} else {
+			args = toArgs(tm.bound)
+			k.fnTag[tm.fn%16] = o.t
+		}
+		id := c.lt.SubscribeWithReceiver(k.name(o.e), k.receiver(o.r), lightFns[tm.fn%16], args...)
+		k.realID[o.t] = id
+		k.tagCtr[o.t] = o.c
+		if id == 0 {
+			k.tok("s0")
+		} else {
+			k.tok("s+")
+		}
+	case 'V':
+		c := k.centre(o.c)
+		if c == nil || c.kind != 'T' || o.r == 0 {
+			k.tok("bad")
+			return
+		}
+		c.lt.UnsubscribeWithReceiver(k.name(o.e), k.receiver(o.r), lightFns[o.t%16])
+		k.tok("u")
 	case 'H':
 		// Subscribe through a wrapper centre whose GetId() — called by the global centre after it looked the
 		// name's list up and before it stores the centre — performs the racing script (once)
@@ -514,7 +571,7 @@ wait:
 func newCase(kinds string) *kase {
 	caseNo++
 	k := &kase{no: caseNo, tmpls: map[int]*tmpl{}, used: map[int]bool{}, realID: map[int]uint64{}, tagCtr: map[int]int{},
-		fnTag: map[int]int{}, hooked: map[int]bool{}, jobs: make(chan func(), 1)}
+		fnTag: map[int]int{}, hooked: map[int]bool{}, recvs: map[int]*recvObj{}, jobs: make(chan func(), 1)}
 	if kinds != "" {
 		for _, s := range strings.Split(kinds, ",") {
 			switch s {
@@ -1154,6 +1211,82 @@ func (g *gen) nestedArgsCase() []string {
 	return lines
 }
 
+// receiverCase: the light centre's receiver API mixed with the receiver-less one for the SAME callback and name:
+// Subscribe then (Un)SubscribeWithReceiver and the reverse, same and different receivers. The generator follows
+// the documented matching rule only to keep `Unsubscribe(name, cb)` unambiguous (it removes "a" listener with
+// that callback: with two receivers registered the choice depends on map order).
+func (g *gen) receiverCase() []string {
+	h, r := g.h, g.h.R
+	h.Count("family.receiver-mix")
+	lines := []string{"reset cs=T"}
+	nt := 10
+	fnOf := map[int]int{}
+	for t := 1; t <= nt; t++ {
+		fn := 1 + r.Intn(2)
+		fnOf[t] = fn
+		nb := r.Intn(3)
+		b := make([]int, nb)
+		for i := range b {
+			b[i] = 10*t + i
+		}
+		lines = append(lines, fmt.Sprintf("def t=%d b=%s f=%d s=", t, joinInts(b, "."), fn))
+	}
+	type ent struct{ tag, fn, recv int }
+	live := map[int][]ent{}
+	match := func(e, fn, rc int) int { // index of the first listener (fn, no receiver or receiver rc); rc<0: any receiver
+		for i, x := range live[e] {
+			if x.fn == fn && (rc < 0 || x.recv == 0 || x.recv == rc) {
+				return i
+			}
+		}
+		return -1
+	}
+	tag := 1
+	n := 8 + r.Intn(10)
+	for i := 0; i < n; i++ {
+		e := 1 + r.Intn(2)
+		switch x := r.Intn(10); {
+		case x < 2 && tag <= nt:
+			if match(e, fnOf[tag], -1) < 0 {
+				live[e] = append(live[e], ent{tag, fnOf[tag], 0})
+			}
+			lines = append(lines, fmt.Sprintf("do ops=s.0.%d.%d.0", e, tag))
+			tag++
+		case x < 5 && tag <= nt:
+			rc := 1 + r.Intn(2)
+			if match(e, fnOf[tag], rc) < 0 {
+				live[e] = append(live[e], ent{tag, fnOf[tag], rc})
+			}
+			lines = append(lines, fmt.Sprintf("do ops=sr.0.%d.%d.%d", e, tag, rc))
+			tag++
+		case x < 8:
+			fn, rc := 1+r.Intn(2), 1+r.Intn(2)
+			if j := match(e, fn, rc); j >= 0 {
+				live[e] = append(live[e][:j], live[e][j+1:]...)
+			}
+			lines = append(lines, fmt.Sprintf("do ops=ur.0.%d.%d.%d", e, fn, rc))
+		default:
+			fn := 1 + r.Intn(2)
+			cnt := 0
+			for _, x := range live[e] {
+				if x.fn == fn {
+					cnt++
+				}
+			}
+			if cnt > 1 {
+				continue
+			}
+			if j := match(e, fn, -1); j >= 0 {
+				live[e] = append(live[e][:j], live[e][j+1:]...)
+			}
+			lines = append(lines, fmt.Sprintf("do ops=f.0.%d.%d", e, fn))
+		}
+		lines = append(lines, fmt.Sprintf("do ops=p.0.%d.%d", e, r.Intn(10)))
+	}
+	lines = append(lines, "do ops=p.0.1.7;p.0.2.7")
+	return lines
+}
+
 // fullCase: the 999-slot queue: the 1000th global publication is dropped, a blocking local one hangs.
 func (g *gen) fullCase() []string {
 	h, r := g.h, g.h.R
@@ -1267,6 +1400,8 @@ func TestRun(t *testing.T) {
 			lines = g.raceCase()
 		case x >= 84:
 			lines = g.nestedArgsCase()
+		case x >= 80:
+			lines = g.receiverCase()
 		case x < 3:
 			h.Count("family.runservice")
 			lines = []string{"reset cs=L", fmt.Sprintf("rs n=%d", h.R.Intn(40))}
